@@ -10,6 +10,7 @@ LEVEL_TEXT = ("Must-pass-through and error-discipline analysis on the MIR: (E2.p
 LEVEL_NOTE = ("Not decided: nothing of substance is declined (the property is structural); trusted: the adapter table is complete "
               "(unknown consumers of may-cancel results are rejected), `?` propagates errors unchanged except for From conversions "
               "(From<CancellationError> wraps into ExecutionError::Cancelled, From<ExecutionError> for itself is the identity).")
+LEVEL_TEXT += (' A closure that may return Cancelled is run only by consumers that keep its errors (map + collect::<Result>, try_for_each, audited local functions), never by flat_map / filter_map / last / for_each; Result::map and and_then in a chain are accepted because they act on the Ok value only.')
 
 RULES = {
     "E2.p": "a call of CancellationFlag::check is on every path to each unit of work the property names (statement, attribute, scan "
